@@ -36,6 +36,18 @@ class C08(Prop):
         for _ in range(150 if quick else 3000):
             words.append([rng.choice(K) for _ in range(rng.randrange(3, 9))])
         words.append([rng.choice(K) for _ in range(600 if quick else 10000)])
+        # scenario words: multi-step receptions whose outcome must not depend on what the buffers held before
+        # (late entry after a failed LSF following stream / BERT / packet reception; odd and even runs of BERT frames before other kinds)
+        six = ["lich_ok"] * 6
+        scen = [["lsf_voice", "stream", "stream", "lsf_badcrc"] + six + ["stream", "stream"],
+                ["bert", "lsf_badcrc"] + six + ["stream"],
+                ["lsf_pkt_raw", "pkt_mid", "lsf_badcrc"] + six + ["stream", "stream"],
+                ["lsf_voice", "stream", "lsf_nearcrc", "lich_ok", "lich_ok", "lich_oor"] + six + ["stream"],
+                ["bert", "lsf_voice", "stream", "stream"], ["bert", "bert", "lsf_voice", "stream"], ["bert", "bert", "bert", "lsf_pkt_raw", "pkt_mid", "pkt_eof"],
+                ["lsf_voice", "stream", "bert", "lsf_voice", "stream", "lsf_pkt_enc", "pkt_mid", "pkt_eof", "lsf_voice", "stream"]]
+        for w in scen:
+            for _ in range(2 if quick else 20):
+                words.append(list(w))
         lines, metas, impl, model = deccheck.run_words(ctx, exe, words)
         for ln, m, a in zip(lines, metas, impl):
             if m is None:
